@@ -18,9 +18,12 @@
 
    Programs are *behaviour trees* (see harness/sched_prog.py): the tree of
    resolver invocations of an operation with the world (what each resolver
-   does) folded in. [defer = Some n] : the resolver call is handed to the
+   does) folded in. [defer = Some (n, e)] : the resolver call is handed to the
    runtime (pool task / coroutine) and yields its result after n further
-   levels of nested deferred values; [None] : it runs synchronously inside
+   levels of nested deferred values; the first e of these n+1 submitted calls
+   complete before [submit] returns (a worker faster than the submitting
+   thread: the executor then chains on futures that are already done), the
+   others when the schedule says so; [None] : it runs synchronously inside
    resolve_field. Keys and list indices are numbers; a path is the list of
    keys/indices from the root (ResolveInfo.path). A task is named by the path
    of its resolver call and its nesting level, so no fresh-id supply is
@@ -31,7 +34,7 @@ Import ListNotations.
 Definition path := list N.
 Definition tid := (path * nat)%type.
 
-Inductive fld := Fld (key : N) (defer : option nat) (nn : bool) (b : body)
+Inductive fld := Fld (key : N) (defer : option (nat * nat)) (nn : bool) (b : body)
 with body :=
 | BInt (z : Z)                       (* resolver returns an int (field type Int) *)
 | BNull                              (* resolver returns None *)
@@ -103,17 +106,31 @@ Fixpoint first_exn (ds : list D) : option N :=
 Definition is_null (v : val) : bool := match v with VNull => true | _ => false end.
 Definition list_of (v : val) : list val := match v with VList l => l | _ => [] end.
 
-(* runtime.gather_values on the synchronous side: a plain list when nothing is deferred *)
-Definition gather_sync (ds : list D) : D :=
-  match all_vals ds with Some vs => Val (VList vs) | None => Gather ds end.
+(* gather: a source that has already failed wins at once (first in source order:
+   the callbacks are registered in that order), the other sources keep running
+   unobserved; later, the first failure in completion order; all done: the list
+   in source order *)
+Definition gather_norm (ds : list D) (st : mstate) : D * mstate :=
+  match first_exn ds with
+  | Some x => (Exn x, add_orphans ds st)
+  | None => match all_vals ds with Some vs => (Val (VList vs), st) | None => (Gather ds, st) end
+  end.
+(* runtime.gather_values called in the synchronous phase *)
+Definition gather_sync (ds : list D) (st : mstate) : D * mstate := gather_norm ds st.
 (* map_value (gather_values pending) _collect *)
-Definition collect_sync (keys : list N) (ds : list D) : D :=
-  match all_vals ds with Some vs => Val (VObj (combine keys vs)) | None => Bind (Gather ds) (KCollect keys) end.
+Definition collect_sync (keys : list N) (ds : list D) (st : mstate) : D * mstate :=
+  let '(g, st1) := gather_norm ds st in
+  match g with
+  | Val v => (Val (VObj (combine keys (list_of v))), st1)
+  | Exn x => (Exn x, st1)
+  | _ => (Bind g (KCollect keys), st1)
+  end.
 (* complete_non_nullable_value: map_value (complete_value inner) handle *)
 Definition nonnull_wrap (nn : bool) (p : path) (r : sres * mstate) : sres * mstate :=
   if nn then
     match r with
     | (SOk (Val v), st) => (SOk (Val v), if is_null v then emit (LErr p ENonNull) st else st)
+    | (SOk (Exn x), st) => (SOk (Exn x), st)          (* chained on a failed future: fails *)
     | (SOk d, st) => (SOk (Bind d (KNonNull p)), st)
     | (SRaise x, st) => (SRaise x, st)
     end
@@ -121,15 +138,34 @@ Definition nonnull_wrap (nn : bool) (p : path) (r : sres * mstate) : sres * msta
 
 Definition next_tid (t : tid) : tid := (fst t, S (snd t)).
 
+(* submission of a resolver call with [more] further levels, the first [e]
+   submitted calls completing before submit returns: Some (t, m) = the call that
+   stays parked, None = the final result is already there *)
+Fixpoint run_eager (t : tid) (more e : nat) (st : mstate) {struct e} : option (tid * nat) * mstate :=
+  match e with
+  | O => (Some (t, more), add_pending t (emit (LInvoke t) st))
+  | S e' =>
+      let st1 := emit (LFinish t) (emit (LInvoke t) st) in
+      match more with
+      | O => (None, st1)
+      | S m => run_eager (next_tid t) m e' st1
+      end
+  end.
+(* a continuation that runs inside a done-callback: what it raises fails the chained future *)
+Definition capture (r : sres * mstate) : sres * mstate :=
+  match r with (SRaise x, st) => (SOk (Exn x), st) | _ => r end.
+
 (* ---- the synchronous phase: what runs inside one call of resolve_field ---- *)
 Fixpoint resolve_field (p : path) (f : fld) (st : mstate) {struct f} : sres * mstate :=
   match f with
   | Fld k dfr nn b =>
     let p' := p ++ [k] in
     match dfr with
-    | Some n =>   (* wrapped resolver: runtime.submit; unwrap (map (unwrap future) complete fail) *)
-        (SOk (Bind (Task (p', O) n) (KComplete f p')),
-         add_pending (p', O) (emit (LInvoke (p', O)) st))
+    | Some (n, e) =>   (* wrapped resolver: runtime.submit; unwrap (map (unwrap future) complete fail) *)
+        match run_eager (p', O) n e st with
+        | (Some (t, m), st1) => (SOk (Bind (Task t m) (KComplete f p')), st1)
+        | (None, st1) => capture (complete_field nn b p' st1)   (* already done: complete / fail run now *)
+        end
     | None =>     (* the resolver runs here *)
         complete_field nn b p' (emit (LFinish (p', O)) (emit (LInvoke (p', O)) st))
     end
@@ -144,13 +180,13 @@ with complete_field (nn : bool) (b : body) (p : path) (st : mstate) {struct b} :
   | BObj fs =>
       nonnull_wrap nn p
         (match start_fields p fs st with
-         | (FOk ds, st1) => (SOk (collect_sync (keys_of fs) ds), st1)
+         | (FOk ds, st1) => let '(d, st2) := collect_sync (keys_of fs) ds st1 in (SOk d, st2)
          | (FRaise x, st1) => (SRaise x, st1)
          end)
   | BList inn its =>
       nonnull_wrap nn p
         (match start_items inn p 0%N its st with
-         | (FOk ds, st1) => (SOk (gather_sync ds), st1)
+         | (FOk ds, st1) => let '(d, st2) := gather_sync ds st1 in (SOk d, st2)
          | (FRaise x, st1) => (SRaise x, st1)
          end)
   end
@@ -189,7 +225,7 @@ with complete_item (inn : bool) (it : item) (p : path) (st : mstate) {struct it}
   | ItObj fs =>
       nonnull_wrap inn p
         (match start_fields p fs st with
-         | (FOk ds, st1) => (SOk (collect_sync (keys_of fs) ds), st1)
+         | (FOk ds, st1) => let '(d, st2) := collect_sync (keys_of fs) ds st1 in (SOk d, st2)
          | (FRaise x, st1) => (SRaise x, st1)
          end)
   end.
@@ -201,6 +237,7 @@ Fixpoint serial_next (acc : list (N * val)) (rest : flds) (st : mstate) : sres *
   | FCons f rest' =>
       match resolve_field [] f st with
       | (SOk (Val v), st1) => serial_next (acc ++ [(key_of f, v)]) rest' st1   (* map_value on a plain value: cb now *)
+      | (SOk (Exn x), st1) => (SOk (Exn x), st1)                              (* chained on a failed future *)
       | (SOk d, st1) => (SOk (Bind d (KSerial (key_of f) acc rest')), st1)
       | (SRaise x, st1) => (SRaise x, st1)
       end
@@ -217,14 +254,6 @@ Definition apply_k (k : K) (v : val) (st : mstate) : D * mstate :=
   | KNonNull p => (Val v, if is_null v then emit (LErr p ENonNull) st else st)
   | KSerial k acc rest => lift (serial_next (acc ++ [(k, v)]) rest st)
   | KFinish => (Val v, st)
-  end.
-
-(* gather: first failure wins at once, the other sources keep running unobserved;
-   all done: the list in source order *)
-Definition gather_norm (ds : list D) (st : mstate) : D * mstate :=
-  match first_exn ds with
-  | Some x => (Exn x, add_orphans ds st)
-  | None => match all_vals ds with Some vs => (Val (VList vs), st) | None => (Gather ds, st) end
   end.
 
 Definition path_eqb (a b : path) : bool :=
@@ -288,11 +317,12 @@ Definition start (pr : prog) : state :=
   | Prog mut fs =>
       let r := if mut then serial_next [] fs st0
                else match start_fields [] fs st0 with
-                    | (FOk ds, st1) => (SOk (collect_sync (keys_of fs) ds), st1)
+                    | (FOk ds, st1) => let '(d, st2) := collect_sync (keys_of fs) ds st1 in (SOk d, st2)
                     | (FRaise x, st1) => (SRaise x, st1)
                     end in
       match r with
       | (SOk (Val v), st) => MkState (Val v) st
+      | (SOk (Exn x), st) => MkState (Exn x) st
       | (SOk d, st) => MkState (Bind d KFinish) st
       | (SRaise x, st) => MkState (Exn x) st
       end
@@ -331,7 +361,7 @@ Fixpoint bs_field (p : path) (f : fld) {struct f} : option val * list entry :=
       let p' := p ++ [k] in
       let pre := match dfr with
                  | None => [LInvoke (p', O); LFinish (p', O)]
-                 | Some n => LInvoke (p', O) :: task_log (p', O) n
+                 | Some (n, _) => LInvoke (p', O) :: task_log (p', O) n
                  end in
       let '(r, es) := bs_complete nn b p' in (r, pre ++ es)
   end
